@@ -190,6 +190,9 @@ pub enum Op {
     Restart,
     /// hold back / release signer sync tasks in the pump
     HoldSigner { on: bool },
+    /// hold back / release the parent synchronisation tasks of all CAs (a key
+    /// roll then stays in its intermediate states)
+    HoldParentSyncs { on: bool },
     /// quiesce and run the property's checkpoint oracle
     Check,
 }
@@ -233,6 +236,7 @@ impl Op {
             Op::Snapshot => "Snapshot",
             Op::Restart => "Restart",
             Op::HoldSigner { .. } => "HoldSigner",
+            Op::HoldParentSyncs { .. } => "HoldParentSyncs",
             Op::Check => "Check",
         }
     }
@@ -314,6 +318,8 @@ pub struct Sim {
     /// anchor's manifest is only refreshed by signer exchanges, so histories
     /// stay below its next-update time)
     pub advance_budget: i64,
+    /// seconds the clock was advanced while the parent syncs were held
+    pub held_advance: i64,
 }
 
 #[derive(Debug)]
@@ -361,6 +367,7 @@ impl Sim {
             task_hook: None,
             task_bad: None,
             advance_budget: budget,
+            held_advance: 0,
         })
     }
 
@@ -400,6 +407,20 @@ impl Sim {
             }
         }
         Ok(name)
+    }
+
+    /// Holding the parent syncs stands for a parent that cannot be reached
+    /// for a while. Certificates are valid for two weeks at least and are
+    /// renewed a week before they expire at the latest, so an outage of up to
+    /// three days must not invalidate anything; a longer one would, by
+    /// design. The hold is therefore lifted before the clock passes that.
+    pub fn release_parent_syncs_before_advance(&mut self, secs: i64) -> Result<(), Fail> {
+        let held = self.w().hold_types.iter().any(|h| h == "_with_parent_");
+        if held && self.held_advance + secs.min(self.advance_budget).max(0) > 3 * 86400 {
+            self.apply(&Op::HoldParentSyncs { on: false })?;
+            self.converge()?;
+        }
+        Ok(())
     }
 
     pub fn pump_n(&mut self, n: usize) -> Step {
@@ -995,7 +1016,11 @@ impl Sim {
                 }
             }
             Op::Advance { secs } => {
+                self.release_parent_syncs_before_advance(*secs as i64)?;
                 let secs = (*secs as i64).min(self.advance_budget).max(0);
+                if self.w().hold_types.iter().any(|h| h == "_with_parent_") {
+                    self.held_advance += secs;
+                }
                 self.advance_budget -= secs;
                 clock::advance(secs);
                 self.flags.hit("clock_advanced");
@@ -1036,12 +1061,26 @@ impl Sim {
             }
             Op::HoldSigner { on } => {
                 let w = self.wm();
+                w.hold_types.retain(|h| h != "sync_ta_proxy_signer");
                 if *on {
-                    w.hold_types = vec!["sync_ta_proxy_signer".into()];
+                    w.hold_types.push("sync_ta_proxy_signer".into());
                     Ok(())
                 } else {
-                    w.hold_types.clear();
                     w.schedule(Task::SyncTrustAnchorProxySignerIfPossible)
+                }
+            }
+            Op::HoldParentSyncs { on } => {
+                let w = self.wm();
+                w.hold_types.retain(|h| h != "_with_parent_");
+                self.held_advance = 0;
+                let w = self.wm();
+                if *on {
+                    w.hold_types.push("_with_parent_".into());
+                    self.flags.hit("parent_syncs_held");
+                    Ok(())
+                } else {
+                    let w = self.w.as_ref().unwrap();
+                    crate::world::guarded(|| w.refresh_all())?
                 }
             }
         };
